@@ -38,7 +38,6 @@ def OpOk (cur : Roi) : Op → Prop
        | _ => True)
   | .define new => sameKind cur new ∧ new.defined = true
   | .removePoint _ => (match cur with | .poly g => 2 ≤ g.vs.length | _ => True)
-  | .forkAdd _ => (match cur with | .poly _ => False | _ => True)
   | _ => True
 
 /-- Vertex list of a polygon (empty for the other classes). -/
@@ -581,10 +580,7 @@ theorem inv_step (st : SpecState) (cur : Roi) (op : Op) (h : Inv st cur) (hok : 
     intro g hg
     subst hg
     exact editRemove_ne g.vs p hok
-  | forkAdd p =>
-    cases cur with
-    | poly g => exact hok.elim
-    | _ => exact h
+  | forkEdit _ _ _ => exact h
 
 /-- Every operation of the list is within the theorem (checked against the region it is applied to). -/
 def OpsOk : Roi → List Op → Prop
